@@ -41,7 +41,7 @@ def bounds(tier, seed):
     vc = pt.version_cases(tier)
     return {
         "version_cases": len(vc), "patterns": sorted({p.text for p, _l, _a, _b in vc}),
-        "config_formats": list(formats(tier)), "max_patterns_per_file": 2 if tier == "quick" else 3,
+        "config_formats": list(formats(tier)), "max_patterns_per_file": "2 (+ 4 triples on one line in all orders)" if tier == "quick" else 3,
         "max_files": 2 if tier == "quick" else 3, "regimes": list(QUICK_REGIMES if tier == "quick" else ALL_REGIMES),
     }
 
@@ -63,6 +63,18 @@ def layouts(pat, old, new, tier, fmt):
     if fmt == "setup.cfg":
         subsets = [s for s in subsets if all(pt.ini_expressible(fp.raw) for fp in s)]
     regimes = QUICK_REGIMES if tier == "quick" else ALL_REGIMES
+    if tier == "quick":
+        triples = [t for t in projgen.pattern_subsets(pat, 3) if len(t) == 3 and pt.compatible(t, old, new)
+                   and not any(fp.anchor_l or fp.anchor_r for fp in t)]
+        if fmt == "setup.cfg":
+            triples = [t for t in triples if all(pt.ini_expressible(fp.raw) for fp in t)]
+        for t in triples[:4]:
+            ids = "+".join(fp.pid for fp in t)
+            for order in itertools.permutations(range(3)):
+                f = projgen.build_file("a.txt", t, ("one-line+own", order), "ascii", "LF", True)
+                yield (f"one-line+own:{ids}:{order}", "several-patterns-on-one-line-and-again-on-own-lines", [f], [("a.txt", [fp.raw for fp in t])], False)
+                f = projgen.build_file("a.txt", t, ("one-line", order), "ascii", "CRLF", False)
+                yield (f"one-line:{ids}:{order}", "several-patterns-on-one-line", [f], [("a.txt", [fp.raw for fp in t])], False)
     for s in subsets:
         ids = "+".join(fp.pid for fp in s)
         nm, _rej = projgen.near_misses(pat, old, new, s)
@@ -75,6 +87,10 @@ def layouts(pat, old, new, tier, fmt):
                 yield (f"one-line:{ids}:{order}", "several-patterns-on-one-line", [f], [("a.txt", [fp.raw for fp in s])], False)
         f = projgen.build_file("a.txt", s, ("repeat", 2), "ascii", "CRLF", True)
         yield (f"repeat:{ids}", "same-pattern-on-several-lines", [f], [("a.txt", [fp.raw for fp in s])], False)
+        if len(s) >= 2 and not any(fp.anchor_l or fp.anchor_r for fp in s):
+            for order in itertools.permutations(range(len(s))):
+                f = projgen.build_file("a.txt", s, ("one-line+own", order), "ascii", "LF", True)
+                yield (f"one-line+own:{ids}:{order}", "several-patterns-on-one-line-and-again-on-own-lines", [f], [("a.txt", [fp.raw for fp in s])], False)
         if len(s) == 1:
             for regime in regimes:
                 f = projgen.build_file("a.txt", s, ("repeat-dense", 3), "ascii", regime, True)
